@@ -7,7 +7,8 @@ Open Scope N_scope.
 
 (* kind 0 (function level, arbitrary byte strings): observation 0 = (false, any error), 1 = (true, nil), 2 = panic.
    kind 2 (function level, generated numeric identifiers): as kind 0; in addition the generator's own data:
-          [iname] the name it put into the identifier and [nums] = [M; m; p; HM; Hm; Hp] the numbers it spelled
+          [ipre] what it put in front of the first '/' (must be empty for a match), [iname] the name it put into
+          the identifier and [nums] = [M; m; p; HM; Hm; Hp] the numbers it spelled
           into the identifier (M.m.p) and into the handler's version (HM.Hm.Hp).  The property is evaluated on
           these numbers, not on the model's reading of the strings.
    kind 1 (routing, two real services): [descs] are the (name, version) pairs one node registered with
@@ -16,9 +17,12 @@ Open Scope N_scope.
           ran (and only it), 99 = more than one handler ran, 98 = the stream was opened but no handler ran within
           the wait, 97 = the stream could not be opened for another reason than a refusal (timeout, reset).
           97 and 98 are inconclusive observations of a slow machine: never a violation, re-run as mismatches.
-   kind 3 (concurrent negotiations in a child process): 0 = all verdicts right, 1 = a wrong verdict, 2 = crash. *)
+   kind 3 (concurrent negotiations in a child process): 0 = all verdicts right, 1 = a wrong verdict, 2 = crash.
+   kind 4 (hostile identifiers end to end: two real services in a child process, the identifier opened with the raw
+          host.NewStream by a connected peer; [descs] as in kind 1): 0 = refused, k = the k-th handler ran, 99, 98, 97
+          as in kind 1, 2 = the child process (the node) crashed. *)
 Record case := { id : N; kind : N; descs : list (bytes * bytes); incoming : bytes; hname : bytes; supported : bytes;
-                 iname : bytes; nums : list N; obs : N }.
+                 ipre : bytes; iname : bytes; nums : list N; obs : N }.
 
 Definition agrees (v : verdict) (o : N) : bool :=
   match v with
@@ -31,7 +35,8 @@ Definition agrees (v : verdict) (o : N) : bool :=
 Definition rule_expect (c : case) : option N :=
   match nums c with
   | [M; m; p; HM; Hm; Hp] =>
-      if existsb (N.eqb slash) (iname c) then None
+      if existsb (N.eqb slash) (iname c) || existsb (N.eqb slash) (ipre c) then None
+      else if negb (is_nil (ipre c)) then Some 0      (* something in front of the first '/': never matched *)
       else if forallb (fun z => z <? two64) [M; m; p; HM; Hm; Hp]
            then Some (if bytes_eqb (iname c) (hname c) && (HM =? M) && (m <=? Hm) then 1 else 0)
            else Some 0                       (* a component that is no 64-bit number: a parse error, no match *)
@@ -49,8 +54,8 @@ Definition expect_parse (M m p : N) : vres :=
   if (M <? two64) && (m <? two64) && (p <? two64) then VNum M m p else VErr.
 Definition spelling_ok (c : case) : bool :=
   match nums c, split slash (incoming c) with
-  | [M; m; p; HM; Hm; Hp], [_; n; v] =>
-      bytes_eqb n (iname c) && vres_eqb (parse_version v) (expect_parse M m p)
+  | [M; m; p; HM; Hm; Hp], [pre; n; v] =>
+      bytes_eqb pre (ipre c) && bytes_eqb n (iname c) && vres_eqb (parse_version v) (expect_parse M m p)
       && vres_eqb (parse_version (supported c)) (expect_parse HM Hm Hp)
   | _, _ => false
   end.
@@ -73,6 +78,12 @@ Definition agrees_case (c : case) : bool :=
     match route_expect c with
     | Some k => obs c =? k
     | None => negb (inconclusive (obs c)) && negb (obs c =? 99)
+    end
+  else if kind c =? 4 then
+    match route_expect c with
+    | Some 0 => (obs c =? 0) || (obs c =? 97)      (* not matched: refused, or the stream failed some other way *)
+    | Some k => obs c =? k
+    | None => negb (obs c =? 98) && negb (obs c =? 99) && negb (obs c =? 2)
     end
   else obs c =? 0.
 
@@ -102,6 +113,16 @@ Definition violation (c : case) : option string :=
          | Some k => if obs c =? k then None else Some "routing"%string
          | None => None
          end
+  else if kind c =? 4 then
+    (* no identifier, however malformed, crashes the node; a handler runs exactly when the rule matches it *)
+    if obs c =? 2 then Some "panic:protocol-id"%string
+    else if obs c =? 99 then Some "routing"%string
+    else if obs c =? 98 then None
+    else match route_expect c with
+         | Some 0 => if (obs c =? 0) || (obs c =? 97) then None else Some "routing"%string
+         | Some k => if (obs c =? k) || (obs c =? 97) then None else Some "routing"%string
+         | None => None
+         end
   else
     if obs c =? 2 then Some "panic"%string
     else if obs c =? 0 then None else Some "decision"%string.
@@ -114,5 +135,5 @@ Definition nontrivial (cs : list case) : list N :=
   map id (filter (fun c => if kind c =? 0
                            then match match_id (incoming c) (hname c) (supported c) with Unspec => false | _ => true end
                            else if kind c =? 2 then match rule_expect c with Some _ => true | None => false end
-                           else if kind c =? 1 then match route_expect c with Some _ => true | None => false end
+                           else if (kind c =? 1) || (kind c =? 4) then match route_expect c with Some _ => true | None => false end
                            else true) cs).
